@@ -59,7 +59,8 @@ def compare(a, b, f32):
             if not np.array_equal(np.isinf(x64[m]), np.isinf(y64[m])) or not np.array_equal(np.sign(x64[m][np.isinf(x64[m])]), np.sign(y64[m][np.isinf(y64[m])])):
                 return "infinities differ", ties
             m = np.isfinite(x64) & np.isfinite(y64)
-            tol = 2e-5 if (f32 or x.dtype == np.float32 or y.dtype == np.float32) else 1e-9
+            # float32 inputs: single-precision accuracy; integer / float64 inputs: 1e-9, or two float32 ulps when the result is stored as float32
+            tol = 2e-5 if f32 else (3e-7 if (x.dtype == np.float32 or y.dtype == np.float32) else 1e-9)
             err = np.abs(x64[m] - y64[m]) / np.maximum(1e-300, np.maximum(np.abs(x64[m]), np.abs(y64[m])))
             err = np.where(np.abs(x64[m] - y64[m]) < 1e-12, 0.0, err)
             if err.size and err.max() > tol:
